@@ -50,6 +50,9 @@ NI = NotImplementedError
 
 # calls that never return (statement position): treated as `throw`
 ALWAYS_THROW = {'throwReadError', 'ThrowReadError', 'abort', 'terminate'}
+# member functions the target functions call on `this` in the pinned source: their exceptions are not part of F_refuses (they are
+# modelled where they are defined); any OTHER member call on `this` is inlined (a helper split off by a refactoring)
+OPAQUE_METHODS = {'ReadTag', 'ReadStringTable', 'CountValidEntries'}
 # class / namespace constants measured by harness/drv/layout.cpp (name -> definition in Gen/Layout.lean)
 LAYOUT_CONSTS = {'MinMapVersion': 'MinMapVersion'}
 
@@ -110,7 +113,8 @@ def callee_decl(n):
     return c
 
 class TrG(TrM):
-    def __init__(self, spec, src_text, find_function, find_constant):
+    def __init__(self, spec, src_text, find_function, find_constant, find_method=None):
+        self.find_method = find_method or (lambda name, nargs: None)
         super().__init__('', {}, dict(ins=[], outs=[], effects=[]), {}, src_text)
         self.g = spec
         self.table = [(name, [re.compile(p) for p in pats]) for name, pats in spec['inputs']]
@@ -478,6 +482,14 @@ class TrG(TrM):
                 obj = strip(s['inner'][1])
                 while obj.get('kind') == 'ImplicitCastExpr': obj = strip(obj['inner'][0])
                 if obj.get('kind') == 'DeclRefExpr': decl = self.lambdas.get(obj['referencedDecl']['name']); args = s['inner'][2:]
+            if k == 'CXXMemberCallExpr' and cd.get('kind') == 'MemberExpr' and name not in OPAQUE_METHODS:
+                # a call of another member function of the same object, defined in this translation unit, that the pinned
+                # source did not make: a helper split off by a refactoring - its guards are still F's guards
+                obj = cd['inner'][0] if cd.get('inner') else {}
+                while obj.get('kind') in ('ImplicitCastExpr', 'ParenExpr'): obj = obj['inner'][0]
+                if obj.get('kind') == 'CXXThisExpr':
+                    decl = self.find_method(name, len(s['inner']) - 1); args = s['inner'][1:]
+                    if decl is None and name and not name.startswith('operator'): raise NI('call of member function ' + name + ' whose body is not in this translation unit')
             if decl is not None: return self.inline(decl, args, False)
             self.opaque(s); return 'True'
         if k in ('SwitchStmt', 'CXXTryStmt', 'GotoStmt', 'LabelStmt', 'CaseStmt', 'DefaultStmt'):
@@ -621,7 +633,22 @@ def generate(repo):
             except OSError: src_text = {}
             decl = find_decl(objs, g['fn'])
             if decl is None: raise NI('no definition found' + ('' if objs else ' (clang: ' + err.strip()[-200:] + ')'))
-            tr = TrG(g, src_text, find_function, find_constant)
+            def find_method(name, nargs):
+                """CXXMethodDecl with a body, defined in the translation unit's own file (out-of-line member definition)"""
+                if not name or not re.fullmatch(r'[A-Za-z_]\w*', name): return None
+                best = None
+                def rec(n):
+                    nonlocal best
+                    if not isinstance(n, dict) or best is not None: return
+                    if n.get('kind') == 'CXXMethodDecl' and n.get('name') == name and any(c.get('kind') == 'CompoundStmt' for c in n.get('inner', [])):
+                        np = len([c for c in n['inner'] if c.get('kind') == 'ParmVarDecl'])
+                        inc = (n.get('loc') or {}).get('includedFrom') or ((n.get('range') or {}).get('begin') or {}).get('includedFrom')
+                        if np >= nargs and not inc: best = n; return
+                    if n.get('kind') in ('NamespaceDecl', 'TranslationUnitDecl', 'CXXRecordDecl', 'LinkageSpecDecl'):
+                        for c in n.get('inner', []): rec(c)
+                for o in lazy_dump(name): rec(o)
+                return best
+            tr = TrG(g, src_text, find_function, find_constant, find_method)
             guards = tr.function(decl)
             lines = [f'def {g["id"]}_guards_translated : Bool := true', f'def {g["id"]}_guard_count : Nat := {len(guards)}']
             for i, (c, line) in enumerate(guards):
